@@ -121,6 +121,14 @@ def first_version() -> bool:
     new = _with_stub(lambda: sid.get_new("version"))
     if not new or str(new) != BASE + "/v001":
         return fail("get_new-first-version")
+    # the same question through a '*' / '>' version Sid of the skeleton, nothing existing: still the first version
+    for sym in ("*", ">"):
+        probe = Sid(PRE + sym + SUF)
+        if not probe:
+            continue
+        got = _with_stub(lambda: probe.get_next("version"))
+        if not got or got.get("version") != "v001":
+            return fail("first-version-through-a-search-version")
     return True
 
 
